@@ -629,7 +629,7 @@ def exhaustive(ctx, im, depth):
 
 def run(ctx):
     from props import cli_proc
-    cli_proc.stream(ctx, ['C16', 'C16@hash'])
+    cli_proc.stream(ctx, ['C16', 'C16@hash', 'C16-relsingle'])
     rng = ctx.rng
     im = Impl()
     try:
